@@ -52,13 +52,13 @@ ApprovalEvents(s, a, r) ==
                                    /\ r.post.status[Msgs[r.ev[i].msg].key] = r.ev[i].msg
 ExecOnlyByDestination(s, a, r) == \A k \in KeyNames :
     (r.post.status[k] = "executed" /\ s.status[k] # "executed") =>
-        /\ a.name = "ValidateMessage" /\ a.key = k /\ r.ret = TRUE
+        /\ a.name = "ValidateMessage" /\ a.key = k /\ r.ret = "true"
         /\ s.status[k] \in MsgNames
         /\ Msgs[s.status[k]].dest = a.caller /\ Msgs[s.status[k]].src = a.src /\ Msgs[s.status[k]].ph = a.ph
         /\ r.ev = <<[k |-> "message_executed", msg |-> s.status[k]]>>
 ConsumeTrueIffMatch(s, a, r) ==
     a.name = "ValidateMessage" /\ r.ok =>
-        (r.ret = TRUE) <=> (/\ s.status[a.key] \in MsgNames
+        (r.ret = "true") <=> (/\ s.status[a.key] \in MsgNames
                             /\ Msgs[s.status[a.key]] = [key |-> a.key, src |-> a.src, dest |-> a.caller, ph |-> a.ph])
 RejectFrame(s, a, r) == ~r.ok => r.post = s /\ r.ev = <<>>
 
